@@ -25,14 +25,19 @@ CONSTANTS Configs,            \* set of configuration records (see MC_ConfParse 
           CapMod,             \* modulus of the capacity counters
           LineMax,            \* a line of this many characters or more does not fit the buffer (20479)
           AlphaOf(_, _),      \* AlphaOf(alphabet name, file id): lines an enumerated file may contain
-          Sc(_),              \* the scanner: Sc(l) = Scan(l) (a model may substitute a tabulated copy of Scan for speed)
+          LineOf(_),          \* files hold line references e; LineOf(e) is the line [x, t] (a model may use small integers as
+                              \* references into a table of lines; in trace validation a reference is the line itself)
+          Sc(_),              \* the scanner on references: Sc(e) = Scan(LineOf(e)) (a model may substitute a tabulated copy)
+          FixedLen(_, _),     \* FixedLen(cfg, f), FixedLine(cfg, f, i): the files of the parametric families (nest, chain, ...)
+          FixedLine(_, _, _), \* of a model, as references
           Obs(_, _, _, _)     \* observation hook (op, input, ret, post), called once per behaviour
 
 VARIABLES cfg, phase, regpos, content, closed,
           ctab, c_idx, c_cnt, cst, cs_idx, cs_cnt, fst, f_idx, f_cnt,
-          vars, tokc, calls, retnull, skipUsed
+          vars, tokc, calls, retnull, skipUsed,
+          acts        \* ghost: names of the actions taken in this behaviour (vacuity guard; states form a tree, so it costs nothing)
 vars_all == <<cfg, phase, regpos, content, closed, ctab, c_idx, c_cnt, cst, cs_idx, cs_cnt, fst, f_idx, f_cnt,
-              vars, tokc, calls, retnull, skipUsed>>
+              vars, tokc, calls, retnull, skipUsed, acts>>
 
 ------------------------------------------------------------------------------------------------
 (* characters and words *)
@@ -101,11 +106,12 @@ PutVar(t) == IF PrefixCI(t, S_put) /\ t[Len(t)] = 41
              ELSE {}
 
 \* everything the parser needs to know about one line
-Scan(l) == [c |-> Class(l),
-            name |-> IF Class(l) = "begin" THEN BeginName(l) ELSE <<>>,
-            target |-> IF Class(l) = "include" THEN IncludeTarget(l) ELSE <<>>,
-            dl |-> IF Class(l) = "text" THEN Delivered(l) ELSE [x |-> 0, t |-> <<>>],
-            put |-> IF Class(l) = "directive" THEN PutVar(Trim(l.t)) ELSE {}]
+Scan(l) == LET c == Class(l) IN
+           [c |-> c,
+            name |-> IF c = "begin" THEN BeginName(l) ELSE <<>>,
+            target |-> IF c = "include" THEN IncludeTarget(l) ELSE <<>>,
+            dl |-> IF c = "text" THEN Delivered(l) ELSE [x |-> 0, t |-> <<>>],
+            put |-> IF c = "directive" THEN PutVar(Trim(l.t)) ELSE {}]
 
 ------------------------------------------------------------------------------------------------
 (* configuration: registered contexts *)
@@ -128,28 +134,13 @@ KindOf(f) == IF cfg.fam = "chain" THEN "ok" ELSE cfg.kinds[f]       \* ok | miss
 FName(f) == <<102>> \o Digits3(f) \o <<46, 99, 102, 103>>            \* "f001.cfg"
 L(s)     == [x |-> 0, t |-> s]
 IncLine(f) == L(<<37>> \o S_include \o <<32>> \o FName(f))
-T1 == L(<<32, 97, 108, 112, 104, 97, 32, 49, 32>>)      \* " alpha 1 "
-T2 == L(<<98, 101, 116, 97>>)                            \* "beta"
-BeginOf(k) == L(S_begin_ \o (CASE k % 3 = 1 -> S_A [] k % 3 = 2 -> S_B [] OTHER -> <<122, 122>>))
-FixedLen(f) ==
-    CASE cfg.fam = "nest"  -> 4 * cfg.n                 \* (begin text1)^n (end text2)^n
-      [] cfg.fam = "unbal" -> cfg.n + 1                 \* begin^n text1
-      [] cfg.fam = "chain" -> IF f <= cfg.n THEN 3 ELSE 1
-      [] cfg.fam = "long"  -> 3                         \* text1, x^n, text2
-      [] cfg.fam = "reg"   -> 6
-      [] OTHER -> 0
-FixedLine(f, i) ==
-    CASE cfg.fam = "nest"  -> IF i <= 2 * cfg.n THEN (IF i % 2 = 1 THEN BeginOf((i + 1) \div 2) ELSE T1)
-                              ELSE (IF i % 2 = 1 THEN L(S_end) ELSE T2)
-      [] cfg.fam = "unbal" -> IF i <= cfg.n THEN BeginOf(i) ELSE T1
-      [] cfg.fam = "chain" -> IF f <= cfg.n THEN (CASE i = 1 -> T1 [] i = 2 -> IncLine(f + 1) [] OTHER -> T2) ELSE T1
-      [] cfg.fam = "long"  -> (CASE i = 1 -> T1 [] i = 2 -> [x |-> cfg.n, t |-> <<>>] [] OTHER -> T2)
-      [] cfg.fam = "reg"   -> (CASE i = 1 -> L(S_begin_ \o RegNames[Len(RegNames)]) [] i = 4 -> L(S_begin_ \o RegNames[2])
-                                 [] i \in {2, 5} -> T1 [] OTHER -> L(S_end))
 UsesContent == cfg.fam \in {"enum", "list"}
-FLen(f)     == IF UsesContent THEN Len(content[f]) ELSE FixedLen(f)
-FLine(f, i) == IF UsesContent THEN content[f][i] ELSE FixedLine(f, i)
-Resolve(path) == IF \E f \in 1 .. NFiles : FName(f) = path THEN CHOOSE f \in 1 .. NFiles : FName(f) = path ELSE 0
+FLen(f)     == IF UsesContent THEN Len(content[f]) ELSE FixedLen(cfg, f)
+FLine(f, i) == IF UsesContent THEN content[f][i] ELSE FixedLine(cfg, f, i)
+Resolve(path) ==                                          \* the file a path names (files are named f001.cfg, f002.cfg, ...), 0 = none
+    IF Len(path) # 8 \/ \E i \in 2 .. 4 : path[i] < 48 \/ path[i] > 57 THEN 0
+    ELSE LET n == (path[2] - 48) * 100 + (path[3] - 48) * 10 + (path[4] - 48) IN
+         IF n >= 1 /\ n <= NFiles /\ FName(n) = path THEN n ELSE 0
 Opens(f) == f > 0 /\ KindOf(f) = "ok"                    \* I: a file is accepted iff it exists and starts with the magic line
 
 ------------------------------------------------------------------------------------------------
@@ -168,7 +159,7 @@ Emit(c) == /\ calls' = Append(calls, c)
            /\ tokc' = IF c.h = 0 THEN tokc ELSE tokc + 1
 
 Snap(ci, cc, si, sc, fi, fc, nv) == [c_idx |-> ci, c_cnt |-> cc, cs_idx |-> si, cs_cnt |-> sc, f_idx |-> fi, f_cnt |-> fc, nvars |-> nv]
-FilesNow == [f \in 1 .. NFiles |-> [name |-> FName(f), kind |-> KindOf(f), lines |-> [i \in 1 .. FLen(f) |-> FLine(f, i)]]]
+FilesNow == [f \in 1 .. NFiles |-> [name |-> FName(f), kind |-> KindOf(f), lines |-> [i \in 1 .. FLen(f) |-> LineOf(FLine(f, i))]]]
 Input    == [cfg |-> cfg, reg |-> RegList, files |-> FilesNow]
 
 Init ==
@@ -179,16 +170,18 @@ Init ==
     /\ ctab = <<[name |-> S_null, h |-> 0]>> /\ c_idx = 0 /\ c_cnt = 20
     /\ cst = <<[id |-> 0, st |-> 0]>> /\ cs_idx = 0 /\ cs_cnt = 20
     /\ fst = <<>> /\ f_idx = 0 /\ f_cnt = 10
-    /\ vars = {} /\ tokc = 0 /\ calls = <<>> /\ retnull = FALSE /\ skipUsed = FALSE
+    /\ vars = {} /\ tokc = 0 /\ calls = <<>> /\ retnull = FALSE /\ skipUsed = FALSE /\ acts = {}
 
 UNCH_files == UNCHANGED <<content, closed>>
 UNCH_ctab  == UNCHANGED <<ctab, c_idx, c_cnt>>
 UNCH_cst   == UNCHANGED <<cst, cs_idx, cs_cnt>>
 UNCH_fst   == UNCHANGED <<fst, f_idx, f_cnt>>
 UNCH_out   == UNCHANGED <<tokc, calls>>
+Did(a)     == acts' = acts \cup {a}
 
 (* spifconf_register_context: I: registering "null" replaces the handler of entry 0 and nothing else *)
 OpRegister ==
+    /\ Did("OpRegister")
     /\ phase = "setup" /\ regpos < Len(RegList)
     /\ LET nm == RegList[regpos + 1] h == regpos + 1 IN
        IF LowerSeq(nm) = S_null
@@ -201,15 +194,17 @@ OpRegister ==
 
 (* spifconf_parse entry: open the main file (file 1) *)
 OpOpenMain ==
+    /\ Did("OpOpenMain")
     /\ phase = "setup" /\ regpos = Len(RegList) /\ Opens(1)
     /\ phase' = "parse"
     /\ fst' = <<[f |-> 1, pos |-> 0, skip |-> FALSE]>> /\ f_idx' = Inc8(f_idx) /\ f_cnt' = Grow(Inc8(f_idx), f_cnt)
     /\ UNCHANGED <<cfg, regpos, vars, retnull, skipUsed>> /\ UNCH_files /\ UNCH_ctab /\ UNCH_cst /\ UNCH_out
 OpOpenFail ==                                                 \* no such file / no magic line: NULL, nothing happens
+    /\ Did("OpOpenFail")
     /\ phase = "setup" /\ regpos = Len(RegList) /\ ~Opens(1)
     /\ phase' = "done" /\ retnull' = TRUE
     /\ UNCHANGED <<cfg, regpos, vars, skipUsed>> /\ UNCH_files /\ UNCH_ctab /\ UNCH_cst /\ UNCH_fst /\ UNCH_out
-    /\ Obs("parse", Input, <<>>, [calls |-> calls, snap |-> Snap(c_idx, c_cnt, cs_idx, cs_cnt, f_idx, f_cnt, Cardinality(vars)), fds |-> 0])
+    /\ Obs("parse", Input, <<>>, [calls |-> calls, snap |-> Snap(c_idx, c_cnt, cs_idx, cs_cnt, f_idx, f_cnt, Cardinality(vars)), fds |-> 0, acts |-> acts'])
 
 (* reading the next line of the file on top of the file stack; in an enumerated family the environment chooses it *)
 Parsing == phase = "parse" /\ fst # <<>>
@@ -222,14 +217,15 @@ AdvanceSkip(b) == [fst EXCEPT ![Len(fst)].pos = @ + 1, ![Len(fst)].skip = b]
 Quiet(l) == /\ Take(l) /\ fst' = Advance
             /\ UNCHANGED <<cfg, phase, regpos, closed, f_idx, f_cnt, vars, retnull, skipUsed>> /\ UNCH_ctab /\ UNCH_cst /\ UNCH_out
 
-OpBlank    == Parsing /\ \E l \in Avail : Sc(l).c = "blank" /\ Quiet(l)
-OpComment  == Parsing /\ \E l \in Avail : Sc(l).c = "comment" /\ Quiet(l)
-OpMagic    == Parsing /\ \E l \in Avail : Sc(l).c = "magic" /\ Quiet(l)
-OpTooLong  == Parsing /\ \E l \in Avail : Sc(l).c = "toolong" /\ Quiet(l)
-OpSkipped  == Parsing /\ Top.skip /\ \E l \in Avail : Sc(l).c \in {"begin", "text", "directive"} /\ Quiet(l)   \* C: skip-to-end asked by a handler
-OpSurplusEnd == Parsing /\ Len(cst) = 1 /\ \E l \in Avail : Sc(l).c = "end" /\ Quiet(l)                     \* S: surplus end ignored
+OpBlank    == Did("OpBlank") /\ Parsing /\ \E l \in Avail : Sc(l).c = "blank" /\ Quiet(l)
+OpComment  == Did("OpComment") /\ Parsing /\ \E l \in Avail : Sc(l).c = "comment" /\ Quiet(l)
+OpMagic    == Did("OpMagic") /\ Parsing /\ \E l \in Avail : Sc(l).c = "magic" /\ Quiet(l)
+OpTooLong  == Did("OpTooLong") /\ Parsing /\ \E l \in Avail : Sc(l).c = "toolong" /\ Quiet(l)
+OpSkipped  == Did("OpSkipped") /\ Parsing /\ Top.skip /\ \E l \in Avail : Sc(l).c \in {"begin", "text", "directive"} /\ Quiet(l)   \* C: skip-to-end asked by a handler
+OpSurplusEnd == Did("OpSurplusEnd") /\ Parsing /\ Len(cst) = 1 /\ \E l \in Avail : Sc(l).c = "end" /\ Quiet(l)                     \* S: surplus end ignored
 
 OpBegin ==                                                    \* S: one begin call, receiving the enclosing state
+    /\ Did("OpBegin")
     /\ Parsing /\ ~Top.skip
     /\ \E l \in Avail :
         /\ Sc(l).c = "begin" /\ Take(l)
@@ -244,6 +240,7 @@ OpBegin ==                                                    \* S: one begin ca
     /\ UNCHANGED <<cfg, regpos, closed, f_idx, f_cnt, vars, retnull, skipUsed>> /\ UNCH_ctab
 
 OpEnd ==                                                      \* S: one end call; its result becomes the enclosing state
+    /\ Did("OpEnd")
     /\ Parsing /\ Len(cst) > 1
     /\ \E l \in Avail :
         /\ Sc(l).c = "end" /\ Take(l)
@@ -256,6 +253,7 @@ OpEnd ==                                                      \* S: one end call
     /\ UNCHANGED <<cfg, phase, regpos, closed, f_idx, f_cnt, vars, retnull, skipUsed>> /\ UNCH_ctab
 
 OpOrdinary ==                                                 \* S: delivered once, trimmed, to the innermost open context
+    /\ Did("OpOrdinary")
     /\ Parsing /\ ~Top.skip
     /\ \E l \in Avail :
         /\ Sc(l).c = "text" /\ Take(l)
@@ -268,6 +266,7 @@ OpOrdinary ==                                                 \* S: delivered on
     /\ UNCHANGED <<cfg, phase, regpos, closed, cs_idx, cs_cnt, f_idx, f_cnt, vars, retnull>> /\ UNCH_ctab
 
 OpDirective ==                                                \* C: expanded, not delivered
+    /\ Did("OpDirective")
     /\ Parsing /\ ~Top.skip
     /\ \E l \in Avail :
         /\ Sc(l).c = "directive" /\ Take(l) /\ fst' = Advance
@@ -275,6 +274,7 @@ OpDirective ==                                                \* C: expanded, no
     /\ UNCHANGED <<cfg, phase, regpos, closed, f_idx, f_cnt, retnull, skipUsed>> /\ UNCH_ctab /\ UNCH_cst /\ UNCH_out
 
 OpInclude ==                                                  \* S: the included file's lines appear at the point of inclusion
+    /\ Did("OpInclude")
     /\ Parsing
     /\ \E l \in Avail :
         /\ Sc(l).c = "include" /\ Opens(Resolve(Sc(l).target)) /\ Take(l)
@@ -285,27 +285,37 @@ OpInclude ==                                                  \* S: the included
                 /\ f_idx' = Inc8(f_idx) /\ f_cnt' = Grow(Inc8(f_idx), f_cnt)
     /\ UNCHANGED <<cfg, regpos, closed, vars, retnull, skipUsed>> /\ UNCH_ctab /\ UNCH_cst /\ UNCH_out
 OpIncludeMissing ==                                           \* reported, parsing continues
+    /\ Did("OpIncludeMissing")
     /\ Parsing
     /\ \E l \in Avail : Sc(l).c = "include" /\ ~Opens(Resolve(Sc(l).target)) /\ Quiet(l)
 OpPreproc ==                                                  \* X: %preproc spawns a process (C11)
+    /\ Did("OpPreproc")
     /\ Parsing
     /\ \E l \in Avail : Sc(l).c = "preproc" /\ Take(l)
     /\ phase' = "beyond"
     /\ UNCHANGED <<cfg, regpos, closed, vars, retnull, skipUsed>> /\ UNCH_ctab /\ UNCH_cst /\ UNCH_fst /\ UNCH_out
 
 OpEofPop ==                                                   \* end of the top file: closed and popped
+    /\ Did("OpEofPop")
     /\ Parsing /\ Top.pos = FLen(Top.f)
     /\ closed' = IF Lazy THEN closed \cup {Top.f} ELSE closed
     /\ fst' = SubSeq(fst, 1, Len(fst) - 1) /\ f_idx' = f_idx - 1 /\ f_cnt' = f_cnt
     /\ UNCHANGED <<cfg, phase, regpos, content, vars, retnull, skipUsed>> /\ UNCH_ctab /\ UNCH_cst /\ UNCH_out
 
 OpReturn ==
+    /\ Did("OpReturn")
     /\ phase = "parse" /\ fst = <<>>
     /\ phase' = "done"
     /\ UNCHANGED <<cfg, regpos, vars, retnull, skipUsed>> /\ UNCH_files /\ UNCH_ctab /\ UNCH_cst /\ UNCH_fst /\ UNCH_out
-    /\ Obs("parse", Input, S_dot, [calls |-> calls, snap |-> Snap(c_idx, c_cnt, cs_idx, cs_cnt, f_idx, f_cnt, Cardinality(vars)), fds |-> 0])
+    /\ Obs("parse", Input, S_dot, [calls |-> calls, snap |-> Snap(c_idx, c_cnt, cs_idx, cs_cnt, f_idx, f_cnt, Cardinality(vars)), fds |-> 0, acts |-> acts'])
 
-Next == \/ OpRegister \/ OpOpenMain \/ OpOpenFail
+OpAbandon ==                                                  \* X: the behaviour left the universe of the statement; reported, not judged
+    /\ Did("OpAbandon")
+    /\ phase = "beyond" /\ phase' = "unjudged"
+    /\ UNCHANGED <<cfg, regpos, vars, retnull, skipUsed>> /\ UNCH_files /\ UNCH_ctab /\ UNCH_cst /\ UNCH_fst /\ UNCH_out
+    /\ Obs("unjudged", Input, <<>>, [calls |-> <<>>, snap |-> Snap(0, 0, 0, 0, 0, 0, 0), fds |-> 0, acts |-> acts'])
+
+Next == \/ OpAbandon \/ OpRegister \/ OpOpenMain \/ OpOpenFail
         \/ OpBlank \/ OpComment \/ OpMagic \/ OpTooLong \/ OpSkipped \/ OpSurplusEnd
         \/ OpBegin \/ OpEnd \/ OpOrdinary \/ OpDirective \/ OpInclude \/ OpIncludeMissing \/ OpPreproc
         \/ OpEofPop \/ OpReturn
